@@ -5,6 +5,7 @@ CONSTANTS
   SigForms = {"full", "nov", "vflip", "rflip", "empty", "short", "long"}
   MaxOps = 6
   MaxChurn = 1
+  DialerSelfCheck = TRUE
   RecordHist = TRUE
   Depth = 6
 INVARIANT Emit
